@@ -199,6 +199,11 @@ Lemma shr6_Z n : Z.shiftr (Z.of_N n) 6 = Z.of_nat (widx n).
 Proof. unfold widx. change 6 with (Z.of_N 6). rewrite <- of_N_shiftr. lia. Qed.
 Lemma land63_Z n : Z.land (Z.of_N n) 63 = Z.of_N (bidx n).
 Proof. unfold bidx. change 63 with (Z.of_N 63). rewrite <- of_N_land. reflexivity. Qed.
+(* the same written with / and % *)
+Lemma quot64_Z n : Z.quot (Z.of_N n) 64 = Z.of_nat (widx n).
+Proof. rewrite widx_div. change 64 with (Z.of_N 64). rewrite <- N2Z.inj_quot. lia. Qed.
+Lemma rem64_Z n : Z.rem (Z.of_N n) 64 = Z.of_N (bidx n).
+Proof. rewrite bidx_mod. change 64 with (Z.of_N 64). rewrite <- N2Z.inj_rem. reflexivity. Qed.
 Lemma bidx_lt n : (bidx n < 64)%N.
 Proof. rewrite bidx_mod. apply N.mod_lt. discriminate. Qed.
 Lemma wrap_small k x : 0 <= x < 2 ^ k -> wrap k x = x.
@@ -210,6 +215,8 @@ Proof.
 Qed.
 Lemma mask_bidx_Z n : wrap 64 (Z.shiftl 1 (Z.land (Z.of_N n) 63)) = Z.of_N (mask (bidx n)).
 Proof. rewrite land63_Z. apply mask_Z, bidx_lt. Qed.
+Lemma mask_bidx_Z' n : wrap 64 (Z.shiftl 1 (Z.of_N (bidx n))) = Z.of_N (mask (bidx n)).
+Proof. apply mask_Z, bidx_lt. Qed.
 
 (* w & ^(1 << bit) on a uint64 word *)
 Lemma ldiff_Z w b : (w < 2 ^ 64)%N -> (b < 64)%N ->
